@@ -359,6 +359,19 @@ fn subst_values() -> Vec<Yaml> {
         Yaml::Integer(i64::MAX),
         Yaml::Integer(i64::MIN),
         Yaml::Real("1.5".into()),
+        // YAML floats at and beyond the edges of f64 (a value parsed as a float may be converted to
+        // an integer or a duration further down)
+        Yaml::Real("0.5".into()),
+        Yaml::Real(".inf".into()),
+        Yaml::Real("-.inf".into()),
+        Yaml::Real(".nan".into()),
+        Yaml::Real("inf".into()),
+        Yaml::Real("infinity".into()),
+        Yaml::Real("1e20".into()),
+        Yaml::Real("2e19".into()),
+        Yaml::Real("1e400".into()),
+        Yaml::Real("-1e20".into()),
+        Yaml::Real("1e-400".into()),
         Yaml::String("".into()),
         Yaml::String("x".into()),
         Yaml::Array(vec![]),
@@ -830,7 +843,7 @@ pub fn run(tier: &str, replay: Option<Value>) -> ! {
     crate::common::clock::unset();
     rep.cov("evaluations", tally.loads.load(Ordering::Relaxed));
     rep.cov("distinct_nontrivial", tally.accepted.load(Ordering::Relaxed));
-    rep.cov("rule", "texts = shipped examples (man page .EX blocks, erbium.conf.example commented and uncommented) and a skeleton naming every remaining key and DHCP option type; structural sweep: every node <- 21 wrong-type/boundary values, every scalar <- 12 duration shapes and 15 name/text shapes at the wire limits (labels of 63/64/255 octets, names of 255 and more, empty labels, 130 labels, 300 and 2100 octets), misspelt/upper-cased, every prefix-shaped scalar <- every length (quick: 0..34 and boundaries; thorough 0..255) x 9 address forms (network, host bits set, zero, v4-mapped, top of the IPv4 / IPv6 space), every entry removed / key misspelt, every PAIR of duration-valued scalars set to each of 5 huge values at once; byte sweep: every offset x {deletion, 17 structural octets}. Every accepted text is served (ACL decisions, RA build+serialise per interface, DISCOVER+REQUEST from 4 receiving addresses x 3 clients; route variants through the live DNS service). distinct_nontrivial = texts the loader accepted (and that were therefore served)");
+    rep.cov("rule", "texts = shipped examples (man page .EX blocks, erbium.conf.example commented and uncommented) and a skeleton naming every remaining key and DHCP option type; structural sweep: every node <- 32 wrong-type/boundary values (incl. YAML floats: fractions, infinities, NaN, 1e20, 1e400), every scalar <- 12 duration shapes and 15 name/text shapes at the wire limits (labels of 63/64/255 octets, names of 255 and more, empty labels, 130 labels, 300 and 2100 octets), misspelt/upper-cased, every prefix-shaped scalar <- every length (quick: 0..34 and boundaries; thorough 0..255) x 9 address forms (network, host bits set, zero, v4-mapped, top of the IPv4 / IPv6 space), every entry removed / key misspelt, every PAIR of duration-valued scalars set to each of 5 huge values at once; byte sweep: every offset x {deletion, 17 structural octets}. Every accepted text is served (ACL decisions, RA build+serialise per interface, DISCOVER+REQUEST from 4 receiving addresses x 3 clients; route variants through the live DNS service). distinct_nontrivial = texts the loader accepted (and that were therefore served)");
     rep.cov("exhaustive", true);
     rep.cov("parts", json!({"structural_texts": n_struct, "byte_texts": n_bytes, "accepted_and_served": tally.accepted.load(Ordering::Relaxed), "serve_steps": tally.served.load(Ordering::Relaxed), "own_network_namespace": isolated, "route_variants_distinct": n_dns, "route_tables_served_live": dt.tables, "route_texts_not_loadable_standalone": dt.not_loadable, "live_queries": dt.queries, "live_answered": dt.answered, "live_closed_without_answer": dt.closed, "live_silent_after_160s": dt.silent}));
     rep.cov("outcome_classes", json!(classes));
